@@ -1258,7 +1258,7 @@ pub fn run(report: &mut Report, replay: Option<&Value>) {
     }
     super::replay_corpus(report, &|r, v| replay_one(r, v));
 
-    let cases: u32 = if report.thorough() { 500_000 } else { 50_000 };
+    let cases: u32 = if report.thorough() { 500_000 } else { 150_000 };
     let mut runner = runner(report.seed, 0xC15, cases);
     let strategy = tape_strategy(512);
     let mut failing_cases = 0u64;
